@@ -9,7 +9,7 @@ import itertools
 from . import astq
 from .closure import node_classes
 from .core import AnalysisError
-from .minieval import Interp, Obj, Raises
+from .minieval import Interp, Obj, Raised, Raises
 from .model import Model
 
 HELPERS = 'pytableaux.proof.helpers'
@@ -303,4 +303,57 @@ def fold_counts(m: Model):
     return out, [f'{m.loc(HELPERS, fleast)} NodeCount.isleast']
 
 
-ALL = [fold_nodeconsts, fold_extended_quantifier_targets, fold_filter_cache, fold_world_index, fold_unserial, fold_branch_value_hook, fold_counts]
+def fold_serial_rule(m: Model):
+    """access.Serial._get_targets (+ _should_apply) folded: unless the world limit is exceeded, every world that has no
+    successor *and carries a sentence node* is offered a target <w, fresh world>, whatever rule was applied last and on
+    whichever branch (a world left unserial keeps its box-type nodes uninstantiated: the branch would finish open and
+    unsaturated); worlds that already see something are not offered."""
+    RULES = 'pytableaux.proof.rules'
+    fg = m.func(RULES, 'access.Serial._get_targets')
+    try:
+        fs = m.func(RULES, 'access.Serial._should_apply')
+    except Exception:
+        fs = None
+    out = []
+
+    class Entry:
+        def __init__(self, rule, branch):
+            self.rule, self.target = rule, Obj('target', branch=branch)
+
+    class T(dict):
+        pass
+    for unserial, populated, last, exceeded in itertools.product(
+            (frozenset(), frozenset({1}), frozenset({1, 2}), frozenset({2, 3})), (frozenset({0, 1, 2}), frozenset({0, 2}), frozenset({0, 1, 2, 3})),
+            ('none', 'serial-same-branch', 'serial-other-branch', 'other-rule'), (False, True)):
+        br, other = Br('b'), Br('other')
+        br.has_map = lambda mp, populated=populated: ('world' in mp and mp['world'] in populated) if set(mp) == {'world'} else False
+        br.new_world = lambda: 9
+        rule = Cache()
+        rule['UnserialWorlds'] = {br: set(unserial)}
+        rule['MaxWorlds'] = Obj('MaxWorlds', is_exceeded=lambda b, exceeded=exceeded: exceeded, is_reached=lambda b, exceeded=exceeded: exceeded)
+        hist = {'none': [], 'serial-same-branch': [Entry('OTHER', br), Entry(rule, br)], 'serial-other-branch': [Entry(rule, other)],
+                'other-rule': [Entry(rule, br), Entry('OTHER', br)]}[last]
+        rule.tableau = Obj('tableau', history=hist)
+        it, classes = interp(m, rule, UnserialWorlds='UnserialWorlds', MaxWorlds='MaxWorlds', StopIteration=StopIteration,
+                             Target=lambda *a, **kw: T(dict(a[0]) if a else {}, **kw), adds=lambda *groups, **kw: dict(adds=groups, **kw),
+                             group=lambda *a: tuple(a), anode=lambda w1, w2: ('access', w1, w2), reversed=lambda x: iter(list(reversed(x))))
+        if fs is not None:
+            rule._should_apply = lambda b: it.call(fs, [rule, b])
+        try:
+            got = it.generate(fg, [rule, br])
+            offered = sorted(t['adds'][0][0][1] for t in got)
+            bad = [t for t in got if t['adds'][0][0][2] != 9 or t.get('branch') is not br]
+        except Raised as e:
+            got, offered, bad = None, f'raises {e.text}', []
+        except (TypeError, KeyError, AttributeError, IndexError, ValueError) as e:
+            got, offered, bad = None, f'raises {type(e).__name__}: {e}', []
+        must = sorted(unserial & populated) if not exceeded else []
+        may = sorted(unserial) if not exceeded else []
+        ok = got is not None and not bad and set(must) <= set(offered) <= set(may)
+        out.append((ok, f'worlds without successor {sorted(unserial)}, worlds with sentence nodes {sorted(populated)}, last history entry: {last}, world limit exceeded: {exceeded}',
+                    f'targets offered for worlds {offered}; required {must} (every unserial world that carries sentences), allowed {may}'
+                    + ('; a target does not use branch.new_world() on this branch' if bad else '')))
+    return out, [f'{m.loc(RULES, fg)} access.Serial._get_targets'] + ([f'{m.loc(RULES, fs)} access.Serial._should_apply'] if fs is not None else [])
+
+
+ALL = [fold_nodeconsts, fold_extended_quantifier_targets, fold_filter_cache, fold_world_index, fold_unserial, fold_branch_value_hook, fold_counts, fold_serial_rule]
